@@ -285,14 +285,50 @@ def impl_safe(pc: PropCheck, line: str) -> str:
         return "exc=" + exc_name(e)
 
 
+HANG_MARKS = ("exc=DIVERGE", "exc=SimTimeout")
+HANG_STOP = 3
+
+
+def hangs(io: str, mo: Optional[str]) -> bool:
+    """a public call of the implementation did not return within its transaction budget where the
+    model's (every loop fuel-bounded) returns"""
+    n_i = sum(io.count(m) for m in HANG_MARKS)
+    n_m = 0 if mo is None else sum(mo.count(m) for m in HANG_MARKS)
+    return n_i > n_m
+
+
+def impl_until_hangs(pc: PropCheck, res: Result, lines: List[str], model_out: List[str]) -> List[str]:
+    """implementation outputs for a prefix of `lines`: evaluation stops once HANG_STOP cases hang where
+    the model returns (each such case costs a whole transaction budget; three are evidence enough)"""
+    out, n = [], res.extra.get("impl_hangs", 0)
+    for l, mo in zip(lines, model_out):
+        if n >= HANG_STOP:
+            res.extra["stopped_after_hangs"] = True
+            break
+        io = impl_safe(pc, l)
+        out.append(io)
+        if hangs(io, mo):
+            n += 1
+            res.extra["impl_hangs"] = n
+    return out
+
+
+def hang_findings(triples, judged) -> List["Finding"]:
+    return [Finding(l, "a public call of the implementation does not return within the per-call transaction budget "
+                       "on this input, while the model's call (fuel-bounded, agreeing with the code everywhere else) "
+                       "returns: the property's outcome for this history is never produced",
+                    {"class": "hang", "impl": io[-300:]})
+            for l, io, mo in triples if hangs(io, mo) and l not in judged]
+
+
 def correspond(pc: PropCheck, res: Result, cases: List[Tuple[str, str]], chunk=20000):
     """Run cases on implementation and model.  Returns (disagreeing triples, spec findings): the
     property's spec judge runs on *every* case, not only on disagreements."""
     bad, viol = [], []
     for i in range(0, len(cases), chunk):
         part = cases[i : i + chunk]
-        impl_out = [impl_safe(pc, l) for l, _ in part]
         model_out = run_driver([l for l, _ in part])
+        impl_out = impl_until_hangs(pc, res, [l for l, _ in part], model_out)
         triples = []
         for (l, g), io, mo in zip(part, impl_out, model_out):
             res.evaluations += 1
@@ -306,7 +342,10 @@ def correspond(pc: PropCheck, res: Result, cases: List[Tuple[str, str]], chunk=2
             triples.append((l, io, mo))
             if io != mo:
                 bad.append((l, io, mo))
-        viol += pc.judge(triples if pc.judge_all else [t for t in triples if t[1] != t[2]])
+        found = pc.judge(triples if pc.judge_all else [t for t in triples if t[1] != t[2]])
+        viol += found + hang_findings(triples, {v.case for v in found})
+        if res.extra.get("stopped_after_hangs"):
+            break
     res.disagreements += [{"case": l[:2000], "impl": io[:2000], "model": mo[:2000]} for l, io, mo in bad[:50]]
     return bad, viol
 
@@ -352,9 +391,13 @@ def run_check(pc: PropCheck, tier: str) -> int:
         # failing-input search: the spec against the implementation alone
         lines = pc.search_lines(res, tier, random.Random(res.seed * 7919 + 3))
         seen = {l for l, _, _ in bad}
-        triples = [(l, impl_safe(pc, l), None) for l in lines if l not in seen]
+        lines = [l for l in lines if l not in seen]
+        mos = run_driver(lines) if DRV.exists() else [None] * len(lines)
+        ios = impl_until_hangs(pc, res, lines, mos)
+        triples = [(l, io, None) for l, io in zip(lines, ios)]
         res.extra["search_inputs"] = len(triples)
         viol = pc.judge(triples)
+        viol += hang_findings([(l, io, mo) for l, io, mo in zip(lines, ios, mos)], {v.case for v in viol})
     return finish(res, a, viol, broken, pc.rule, pc.assumptions, pc.exhaustive, pc.extra_trusted)
 
 
